@@ -144,7 +144,7 @@ def ensure2dAll (ss : List Shape) : List Shape := ss.map ensure2d
 open Protocol in
 def handle (o : Protocol.Op) : Option String :=
   match o.name with
-  | "ENS" => some <| Id.run do
+  | "ENSURE" => some <| Id.run do
       let some fn := o.str? "fn" | return "bad-op"
       let some variant := o.str? "variant" | return "bad-op"
       let some vs := o.vecs.mapM id | return "bad-op"
